@@ -25,6 +25,9 @@ CHECKS["C13"] = dict(cat="proof", tech=TECH,
 CHECKS["C15"] = dict(cat="proof", tech=TECH,
    text="Contracts on PREM.density (piecewise shells, scalar = array entries, zero outside) for both shipped tables and on slant_depth (zero iff the chord misses, exit point on the surface, trapezoid sum of density along the chord on a ceil(d/step) grid, dependence only on |q|^2 and q.u), plus normalize's contract and two ghost lemmas; discharged by z3 / Groebner-basis ideal membership from the current source.",
    note=PROOF_NOTE + " Convergence of the trapezoid rule and monotonic growth with the dip are not decided (N).", ref="§5 C15")
+CHECKS["C14"] = dict(cat="proof", tech=TECH,
+   text="Contracts on interaction-type choice, GQRS/CTW inelasticity ranges, shower fractions for every neutrino type and interaction kind (including the secondary retry loop via loop invariants), cross-section positivity/monotonicity/CC+NC=total, interaction lengths, and the Event tree API; obligations generated from the current source and discharged by z3.",
+   note=PROOF_NOTE + " Event-tree shapes are bounded (B); agreement with published distributions is N.", ref="§5 C14")
 NOT_YET = {}
 def main():
     props = [json.loads(l) for l in open(os.path.join(HERE, "properties.jsonl"))]
